@@ -167,6 +167,7 @@ def main(tier):
     chk.coverage['traces_validated_against_impl'] += len(cases)
     _custom_part(chk, tier)
     _parser_part(chk, tier)
+    _lexer_part(chk, tier, cases)
     return chk.finish()
 
 
@@ -236,3 +237,41 @@ def _parser_part(chk, tier):
                 chk.violation('parser|' + key, what, case)
     chk.coverage['traces_validated_against_impl'] += len(cases)
     chk.notes['parser_model'] = {'token_sequences': len(cases), 'compiles': total, 'outcome_agrees_with_model': agree_total}
+
+
+
+def _lexer_part(chk, tier, cases):
+    """Lexer.tla <-> code on hostile input: for a sample of the generated class strings (first representative, five contexts) the token
+    stream printed by the real tokenizer under DEBUG must be the one Lexer.tla computes (Trace_Lex).  Agreement is recorded (drift), the
+    verdict of C06 stays the outcome class."""
+    import json
+    from harness import lexrec, trace
+    sv, bs4 = common.import_repo()
+    rng = random.Random(common.SEED + 66)
+    texts = set()
+    ctxs = ['%s', '[a=%s]', ':is(%s)', 'a %s b', ':nth-child(%s)', ':lang(%s)', '[%s]', 'a%s']
+    sample = cases if len(cases) < 1500 else rng.sample(cases, 1500)
+    for c in sample:
+        body = ''.join(rng.choice(CLASSES[k]) for k in c['s'])
+        for ctx in rng.sample(ctxs, 3):
+            texts.add(ctx % body)
+    lines = []
+    for k, t in enumerate(sorted(texts)):
+        if any(0xD800 <= ord(ch) <= 0xDFFF for ch in t):
+            continue          # lone surrogates cannot be written to the trace file
+        r = lexrec.record(sv, t)
+        seen = t.replace('\x00', '\ufffd')          # what the tokenizer is given (CSSParser.__init__ replaces NUL)
+        lines.append(json.dumps({'id': 'c%d' % k, 'text': common.cps(seen), 'toks': r['toks'], 'lexerr': r['lexerr'],
+                                 'complete': bool(r['complete']), 'res': 'tokens', 'css': t}))
+    sub = common.Check('C06-lex', chk.tier)
+    rej = trace.validate(sub, lines, 'Trace_Lex', 'lexer-binding', batch=800)
+    chk.coverage['states'] += sub.coverage['states']
+    chk.coverage['transitions'] += sub.coverage['transitions']
+    chk.coverage['traces_validated_against_impl'] += len(lines)
+    for m in sub.machinery_errors:
+        chk.machinery(m)
+    chk.notes['lexer_binding'] = {'texts': len(lines), 'token_streams_equal_to_Lexer_tla': len(lines) - len(rej)}
+    ev = {json.loads(l)['id']: json.loads(l) for l in lines}
+    for rid, exp in rej[:40]:
+        chk.drift.append({'lexer_model_disagrees': ev[rid]['css'], 'real': [(t['k'], t['a'], t['b']) for t in ev[rid]['toks']],
+                          'lexerr': ev[rid]['lexerr'], 'spec': (exp or '')[:260]})
